@@ -77,6 +77,20 @@ Proof.
 Qed.
 Print Assumptions C22_alias_refuted.
 
+(* ... and only through big_maps on the stack: the old restore satisfies the property on every cell
+   sequence in which no cell fails while a big_map is on the stack ([alias_safe], decidable by running
+   the model; this was the class of the known finding before the fix) *)
+Theorem C22_alias_partial : forall cells,
+  alias_safe init cells = true ->
+  let rs := snd (run Alias init cells) in
+  snd (run Alias init (keep_done cells rs)) = filter is_done rs /\
+  view (fst (run Alias init (keep_done cells rs))) = view (fst (run Alias init cells)).
+Proof. exact alias_partial. Qed.
+Print Assumptions C22_alias_partial.
+
+Example C22_alias_class_excludes_witness : alias_safe init witness_19 = false.
+Proof. exact alias_safe_witness. Qed.
+
 (* non-vacuity: in the repaired mode the same session has a failing cell, big_maps on the stack at
    that moment, and the ids 0, 1 with and without it *)
 Example C22_example :
